@@ -46,7 +46,7 @@
      Hypergeometric::new       every valid triple (PopulationTooLarge "may" be returned whenever
                                the initial probability underflows: documented, value-dependent)
    No Unspecified region was added beyond Appendix B.                                           *)
-From Coq Require Import ZArith List Bool String.
+From Coq Require Import ZArith List Bool String Reals.
 From Flocq Require Import Core.Core IEEE754.Binary IEEE754.Bits IEEE754.BinarySingleNaN.
 From RD Require Import Model.Guards.
 Import ListNotations.
@@ -121,6 +121,20 @@ Definition min_normal : float := cdy prec emax Hp Hpe 1 (2 - emax).
 Definition v_subnormal (x : float) : bool :=
   v_fin x && negb (v_eq x zero) && v_lt (fabs x) min_normal.
 
+(* ---- real-valued view, used to state the contracts on libm parameters ----
+   M = 2^emax exceeds every finite float; ext x is the value of a non-NaN float as a real number,
+   with +inf and -inf sent to +M and -M (so that `<=` on ext is the order of the extended reals). *)
+Definition M : R := bpow radix2 emax.
+Definition ext (x : float) : R :=
+  match x with
+  | B754_infinity false => M
+  | B754_infinity true => (- M)%R
+  | _ => B2R x
+  end.
+(* x >= 1, possibly +inf *)
+Definition ge1 (x : float) : Prop :=
+  (is_finite x = true /\ (1 <= B2R x)%R) \/ x = B754_infinity false.
+
 (* ---- normal.rs ----
    Error::BadVariance  "The standard deviation or other dispersion parameter is not finite."
    Error::MeanTooSmall "The mean value is too small (log-normal samples must be positive)"
@@ -137,6 +151,12 @@ Definition spec_LogNormal_from_mean_cv (mean cv : float) : expect :=
   spec_of [(negb (v_fin cv) || v_lt cv zero, "BadVariance");
            (negb (v_lt zero mean) && negb (v_eq mean zero && v_eq cv zero), "MeanTooSmall")]
           [] (v_pinf mean).
+
+(* KNOWN DEFECT class of LogNormal::from_mean_cv (decidable): cv is finite but a = 1 + cv*cv
+   overflows to +inf (cv > ~1.34e154 in f64, > ~1.84e19 in f32).  Documented: Ok (cv finite, >= 0);
+   real code: sigma = sqrt(ln(a)) = inf, rejected by the nested Normal::new => Err(BadVariance).  *)
+Definition LN_a (cv : float) : float := fadd prec emax Hp Hpe one (fmul cv cv).
+Definition LN_known (cv : float) : bool := v_fin cv && v_pinf (LN_a cv).
 
 (* ---- exponential.rs ---- LambdaTooSmall: "`lambda < 0` or is `-0.0` is `nan`." *)
 Definition spec_Exp_new (lambda : float) : expect :=
@@ -265,10 +285,28 @@ Definition spec_Dirichlet_new (alpha : list float) : expect :=
   end.
 
 End Fmt.
+Arguments M : simpl never.
+Arguments ext : simpl never.
 
 (* ---- hypergeometric.rs (u64 arguments) ---- ProbabilityTooLarge "`population_with_feature >
    total_population_size`", SampleSizeTooLarge "`sample_size > total_population_size`",
    PopulationTooLarge "`total_population_size` is too large, causing floating point underflow"
    (value-dependent: allowed for every valid triple, never required)                           *)
+Definition is_u64 (x : Z) : Prop := 0 <= x <= u64_max.
+(* KNOWN DEFECT classes of Hypergeometric::new (decidable): VALID triples on which a debug build
+   panics with an arithmetic overflow (a release build wraps):
+   known1: `offset_x += n1 as i64 * sign_x` overflows i64: the feature group is the larger one
+           (K > N-K, so sign_x = -1 and offset_x = n as i64), more than half the population is
+           sampled (n > N/2), n >= 2^63 (so `n as i64` is negative) and n - (N-K) < 2^63.
+           E.g. new(u64::MAX, u64::MAX - 1, 2^63).
+   known2: `min_all + 1` overflows u64 in fraction_of_products_of_factorials:
+           N = u64::MAX, K in {0, N}, n in {0, N}.  E.g. new(u64::MAX, u64::MAX, u64::MAX).      *)
+Definition hyper_known1 (N K n : Z) : bool :=
+  (K <=? N) && (n <=? N) && (K >? N - K) && (n >? N / 2) && (9223372036854775808 <=? n)
+  && (n - (N - K) <? 9223372036854775808).
+Definition hyper_known2 (N K n : Z) : bool :=
+  (N =? u64_max)%Z && ((K =? 0)%Z || (K =? N)%Z) && ((n =? 0)%Z || (n =? N)%Z).
+Definition hyper_known (N K n : Z) : bool := hyper_known1 N K n || hyper_known2 N K n.
+
 Definition spec_Hypergeometric_new (N K n : Z) : expect :=
   spec_of [(K >? N, "ProbabilityTooLarge"); (n >? N, "SampleSizeTooLarge")] [] true.
